@@ -103,6 +103,23 @@ class Skip(Exception):
     pass
 
 
+class DrawBudget(Exception):
+    """More random draws in one operation than any terminating case needs: the Las-Vegas loop does not end."""
+
+
+DRAW_BUDGET = 8000
+
+
+def guard_seam(seam):
+    orig = type(seam)._decide
+
+    def guarded(kind, n):
+        if len(seam.log) > DRAW_BUDGET:
+            raise DrawBudget()
+        return orig(seam, kind, n)
+    seam._decide = guarded
+
+
 class Env:
     """Everything an operation needs, bound to one runtime and one prime."""
 
@@ -226,12 +243,13 @@ def build_plain_ops(env):
         op(f'reverse:secret-int:d={d}', 1, 'all', lambda ca, d=d: env.sec(ca).reverse(mpc.SecInt()(d)), rs_ref)
     pub = [('add', lambda x, y: x + y, 'all', False), ('sub', lambda x, y: x - y, 'all', False), ('mul', lambda x, y: x * y, 'all', False),
            ('floordiv', lambda x, y: x // y, 'mid', True), ('mod', lambda x, y: x % y, 'mid', True),
-           ('eq', lambda x, y: x == y, 'all', False), ('lt', lambda x, y: x < y, 'mid', False), ('ge', lambda x, y: x >= y, 'mid', False)]
+           ('eq', lambda x, y: x == y, 'all', False), ('ne', lambda x, y: x != y, 'all', False), ('lt', lambda x, y: x < y, 'mid', False), ('ge', lambda x, y: x >= y, 'mid', False)]
     for nm, o, cls, nzb in pub:
-        kind = 'elt' if nm in ('eq', 'lt', 'ge') else 'poly'
+        kind = 'elt' if nm in ('eq', 'ne', 'lt', 'ge') else 'poly'
         rf = (lambda o, nzb: lambda ca, cb: _r(o(env.pl(ca), _nz(env.pl(cb)) if nzb else env.pl(cb))))(o, nzb)
         op(f'{nm}:secret,public', 2, cls, (lambda o: lambda ca, cb: o(env.sec(ca), env.pl(cb)))(o), rf, kind)
-        op(f'{nm}:public,secret', 2, cls, (lambda o: lambda ca, cb: o(env.pl(ca), env.sec(cb)))(o), rf, kind)
+        if nm not in ('eq', 'ne'):      # gfpx polynomial == secure polynomial is decided by gfpx (False): not offered
+            op(f'{nm}:public,secret', 2, cls, (lambda o: lambda ca, cb: o(env.pl(ca), env.sec(cb)))(o), rf, kind)
     op('divmod:public,secret', 2, 'mid', lambda ca, cb: list(divmod(env.pl(ca), env.sec(cb))), lambda ca, cb: list(divmod(env.pl(ca), _nz(env.pl(cb)))), 'polys')
     op('divmod:secret,public', 2, 'mid', lambda ca, cb: list(divmod(env.sec(ca), env.pl(cb))), lambda ca, cb: list(divmod(env.pl(ca), _nz(env.pl(cb)))), 'polys')
     return ops
@@ -294,7 +312,14 @@ def run_case(part, env, seam, sp, name, spec, plain, inputs, mode, script, seed,
         part.case(key=None)
         if kind == 'raises' and isinstance(exc, want):
             return 0
-        part.violation(f'{key0}:exception:{type(exc).__name__}', f'{tag} raised {exc!r:.200} (masks {mode} {script})', detail)
+        base = 'C38:' + name.split(':')[0]
+        if isinstance(exc, DrawBudget):
+            zero = all(not any(c) for c in inputs)
+            part.violation(f'{base}:nontermination' + (':zero-polynomial' if zero else ''),
+                           f'{tag} does not terminate (more than {DRAW_BUDGET} random draws; masks {mode} {script})', detail)
+            return None
+        part.violation(f'{base}:exception:{type(exc).__name__}' + (':empty-operands' if all(len(c) == 0 for c in inputs) else ''),
+                       f'{tag} raised {exc!r:.200} (masks {mode} {script})', detail)
         return None
     draws = len(seam.log)
     part.case(key=None, nontrivial=bool(draws) or any(len(c) > 1 for c in inputs))
@@ -316,7 +341,11 @@ def run_case(part, env, seam, sp, name, spec, plain, inputs, mode, script, seed,
         part.sample(dict(config=cfg, op=name, inputs=[list(c) for c in inputs], masks=mode, draws=draws, result=repr(got)[:80]))
     ln = lengths_of(r, env.secpoly)
     if ln is not None and ln != (None,) * (len(ln) if isinstance(ln, tuple) else 1):
-        lengths.setdefault((name, tuple(len(c) for c in inputs)), {}).setdefault(ln, [list(c) for c in inputs])
+        pubkey = tuple(len(c) for c in inputs)
+        if 'public' in name.split(':')[-1].split(','):          # the public operand (its value is public) is part of the class
+            forms = name.split(':')[-1].split(',')
+            pubkey = tuple(tuple(c) if forms[i] == 'public' else len(c) for i, c in enumerate(inputs))
+        lengths.setdefault((name, pubkey), {}).setdefault(ln, [list(c) for c in inputs])
     return draws
 
 
@@ -371,6 +400,7 @@ def run_sp(job):
     from mc import sp
     part = Part()
     mpc, seam = sp.setup(sec_param=K_SP, no_prss=True)
+    guard_seam(seam)
     p, tier, seed = job['p'], job['tier'], job['seed']
     env = Env(mpc, p)
     ops = all_ops(env)
@@ -608,6 +638,7 @@ def replay(case):
     from mc import sp
     part = Part()
     mpc, seam = sp.setup(sec_param=K_SP, no_prss=True)
+    guard_seam(seam)
     env = Env(mpc, case['p'])
     ops = all_ops(env)
     plain, arity, cls, fn, ref, kind = ops[case['name']]
